@@ -177,7 +177,7 @@ func blockQuotesInDoc(d *ast.Document) bool {
 // the text is removed (what the lexer does to the content reference).
 func blockTrimInDoc(d *ast.Document) bool {
 	for _, b := range blockLiterals(d) {
-		if b.clean && !b.extraQuote && blockTrimClass(b.raw) {
+		if b.clean && blockTrimClass(b.raw) {
 			return true
 		}
 	}
